@@ -744,10 +744,15 @@ class ConfigDict(Config):
 
 
 def _format_string(value: bytes) -> bytes:
+    # Like git, quote values that would otherwise lose leading or trailing
+    # whitespace, start a comment ('#' or ';') or contain a carriage return
+    # (which has no escape sequence and is only kept inside quotes).
     if (
         value.startswith((b" ", b"\t"))
         or value.endswith((b" ", b"\t"))
         or b"#" in value
+        or b";" in value
+        or b"\r" in value
     ):
         return b'"' + _escape_value(value) + b'"'
     else:
@@ -821,7 +826,6 @@ def _parse_string(value: bytes) -> bytes:
 def _escape_value(value: bytes) -> bytes:
     """Escape a value."""
     value = value.replace(b"\\", b"\\\\")
-    value = value.replace(b"\r", b"\\r")
     value = value.replace(b"\n", b"\\n")
     value = value.replace(b"\t", b"\\t")
     value = value.replace(b'"', b'\\"')
